@@ -11,7 +11,7 @@ use aws_smt_strings::regular_expressions::RegLan;
 
 use crate::ast::{self, rmatch, A};
 use crate::calls::*;
-use crate::dfa::Dfa;
+use crate::dfa::{Cell, Dfa};
 use crate::gen::Prop;
 use crate::model::*;
 use crate::rng::{mix, DetHasher, Rng};
@@ -353,7 +353,7 @@ impl<'t> World<'t> {
     }
 
     /// instantiate a cell string with concrete code points (low / middle / high of each cell)
-    pub fn instantiate(&self, w: &[u8], rng: &mut Rng) -> Vec<u32> {
+    pub fn instantiate(&self, w: &[Cell], rng: &mut Rng) -> Vec<u32> {
         w.iter()
             .map(|&c| match rng.below(3) {
                 0 => self.alpha.lo(c as usize),
@@ -397,7 +397,7 @@ impl<'t> World<'t> {
                 let spec = match op {
                     OpKind::ReNone => ast::empty(),
                     OpKind::Eps => ast::eps(),
-                    _ => ast::cells(0, (self.k - 1) as u8),
+                    _ => ast::cells(0, (self.k - 1) as Cell),
                 };
                 pool.push(Handle {
                     re,
@@ -546,7 +546,8 @@ impl<'t> World<'t> {
     // ------------------------------------------------------------------------------------
 
     fn exec_step(&mut self, ci: usize, st: &Step) -> Result<(), Stop> {
-        crate::dfa::set_budget(STEP_DFA_BUDGET);
+        // wide alphabets make every transition row longer: scale the work budget with it
+        crate::dfa::set_budget(STEP_DFA_BUDGET * (1 + self.k as u64 / 12));
         match st.op.cat() {
             Cat::Ctor => self.step_ctor(ci, st),
             Cat::Deriv => self.step_deriv(ci, st),
@@ -573,13 +574,13 @@ impl<'t> World<'t> {
         let spec_of = |w: &World, i: usize| w.clients[ci].pool[i].spec.clone();
         let spec: A = match st.op {
             ReNone => ast::empty(),
-            All => ast::looped(&ast::cells(0, (k - 1) as u8), 0, None),
-            AllChar => ast::cells(0, (k - 1) as u8),
+            All => ast::looped(&ast::cells(0, (k - 1) as Cell), 0, None),
+            AllChar => ast::cells(0, (k - 1) as Cell),
             Eps => ast::eps(),
             Char => {
                 let c = self.alpha.single(st.a[0]);
                 call.n1 = c;
-                let cell = self.alpha.cell_of(c) as u8;
+                let cell = self.alpha.cell_of(c) as Cell;
                 ast::cells(cell, cell)
             }
             Range => {
@@ -588,15 +589,15 @@ impl<'t> World<'t> {
                 let (a, b) = (a.min(b), a.max(b));
                 call.n1 = self.alpha.lo(a);
                 call.n2 = self.alpha.hi(b);
-                ast::cells(a as u8, b as u8)
+                ast::cells(a as Cell, b as Cell)
             }
             SmtRange => {
                 call.s = st.s.iter().map(|&c| self.alpha.single(c % BAD_BASE)).collect();
                 call.t = st.t.iter().map(|&c| self.alpha.single(c % BAD_BASE)).collect();
                 if call.s.len() == 1 && call.t.len() == 1 && call.s[0] <= call.t[0] {
                     ast::cells(
-                        self.alpha.cell_of(call.s[0]) as u8,
-                        self.alpha.cell_of(call.t[0]) as u8,
+                        self.alpha.cell_of(call.s[0]) as Cell,
+                        self.alpha.cell_of(call.t[0]) as Cell,
                     )
                 } else {
                     ast::empty()
@@ -608,7 +609,7 @@ impl<'t> World<'t> {
                     .s
                     .iter()
                     .map(|&c| {
-                        let cell = self.alpha.cell_of(c) as u8;
+                        let cell = self.alpha.cell_of(c) as Cell;
                         ast::cells(cell, cell)
                     })
                     .collect();
@@ -710,7 +711,7 @@ impl<'t> World<'t> {
         if self.on(Prop::C01) && !info.alien {
             let expect = match &info.dfa {
                 Some(d) => d.nullable(),
-                None => rmatch(&info.ast, &[]),
+                None => rmatch(&info.ast, &[]).unwrap_or(false),
             };
             let fp = info.dfa.as_ref().map(|d| d.fingerprint()).unwrap_or(0);
             let nt = info
@@ -815,7 +816,7 @@ impl<'t> World<'t> {
                 pts.sort_unstable();
                 pts.dedup();
                 let mut rng = Rng::new(self.salt(st));
-                let mut bases: Vec<Vec<u8>> = Vec::new();
+                let mut bases: Vec<Vec<Cell>> = Vec::new();
                 bases.extend(sd.shortest_accepted());
                 bases.extend(sd.shortest_rejected());
                 for acc in [true, false, true, false] {
@@ -856,9 +857,11 @@ impl<'t> World<'t> {
                     self.eval(Prop::C01, "c01.term-equals-spec", fp, st.op as u64 + 100, nt);
                     if **sd != **td {
                         let w = sd.shortest_diff(td).unwrap();
-                        let in_spec = rmatch(&spec, &w);
-                        let in_term = rmatch(&info.ast, &w);
-                        if in_spec == in_term {
+                        let in_spec = sd.accepts(&w);
+                        let in_term = td.accepts(&w);
+                        if rmatch(&spec, &w).map(|x| x != in_spec).unwrap_or(false)
+                            || rmatch(&info.ast, &w).map(|x| x != in_term).unwrap_or(false)
+                        {
                             return Err(Stop::Harness(format!(
                                 "R-dfa and R-match disagree on {:?}: spec {} term {}",
                                 w, spec, info.ast
@@ -889,9 +892,11 @@ impl<'t> World<'t> {
                     let mut rng = Rng::new(self.salt(st));
                     for _ in 0..6 {
                         let len = rng.below(5) as usize;
-                        let w: Vec<u8> = (0..len).map(|_| rng.below(self.k as u64) as u8).collect();
-                        let in_spec = rmatch(&spec, &w);
-                        let in_term = rmatch(&info.ast, &w);
+                        let w: Vec<Cell> = (0..len).map(|_| rng.below(self.k as u64) as Cell).collect();
+                        let (in_spec, in_term) = match (rmatch(&spec, &w), rmatch(&info.ast, &w)) {
+                            (Some(a), Some(b)) => (a, b),
+                            _ => continue,
+                        };
                         self.eval(Prop::C01, "c01.term-equals-spec-sampled", 0, 0, false);
                         self.judge(Prop::C01, "c01.term-equals-spec-sampled", in_spec == in_term, || {
                             format!(
@@ -920,7 +925,7 @@ impl<'t> World<'t> {
                 let nt = !u.is_empty_lang() && !u.is_full_lang();
                 self.eval(Prop::C16, "c16.union-keeps-operands", u.fingerprint(), call.hs.len() as u64, nt);
                 if let Some(w) = u.shortest_not_subset(td) {
-                    if rmatch(&info.ast, &w) {
+                    if rmatch(&info.ast, &w) == Some(true) {
                         return Err(Stop::Harness(format!(
                             "R-dfa/R-match disagree on union result {} string {:?}",
                             info.ast, w
@@ -1211,7 +1216,7 @@ impl<'t> World<'t> {
         match &expect {
             Expect::Quot(pts) => {
                 if let Some(&p) = pts.first() {
-                    spec = ast::quot(&espec, self.alpha.cell_of(p) as u8);
+                    spec = ast::quot(&espec, self.alpha.cell_of(p) as Cell);
                 }
                 if self.on(Prop::C03) && !info.alien && !einfo.alien {
                     if let (Some(ed), Some(rd)) = (&einfo.dfa, &info.dfa) {
@@ -1224,11 +1229,13 @@ impl<'t> World<'t> {
                             self.eval(Prop::C03, "c03.derivative-is-quotient", ed.fingerprint(), (st.op as u64) << 8 | c as u64, nt);
                             if q != **rd {
                                 let w = q.shortest_diff(rd).unwrap();
-                                let mut cw = vec![c as u8];
+                                let mut cw = vec![c as Cell];
                                 cw.extend_from_slice(&w);
-                                let in_e = rmatch(&einfo.ast, &cw);
-                                let in_r = rmatch(&info.ast, &w);
-                                if in_e == in_r {
+                                let in_e = ed.accepts(&cw);
+                                let in_r = rd.accepts(&w);
+                                if rmatch(&einfo.ast, &cw).map(|x| x != in_e).unwrap_or(false)
+                                    || rmatch(&info.ast, &w).map(|x| x != in_r).unwrap_or(false)
+                                {
                                     return Err(Stop::Harness(format!(
                                         "R-dfa and R-match disagree on a quotient: {} / {} string {:?}",
                                         einfo.ast, info.ast, cw
